@@ -76,16 +76,18 @@ pub proof fn lemma_ins<F>(d: Defs<F>, ops: Seq<Op<F>>, n: int, extra: WSet, dn: 
 }
 
 /// the backwards step of an Add/Mul op n: if its out already has a recorded def, b is re-recorded at n (unless constant)
-pub proof fn lemma_backwards<F>(d: Defs<F>, ops: Seq<Op<F>>, n: int, out: WitnessId, b: WitnessId)
+/// `out` already has a value before op n: an earlier op defines it, or it is an input slot filled from outside the op list
+pub open spec fn bwx<F>(d: Defs<F>, inputs: Set<WitnessId>, out: WitnessId, n: int) -> bool { inputs.contains(out) || (d.dom().contains(out) && d[out].idx < n) }
+pub proof fn lemma_backwards<F>(d: Defs<F>, ops: Seq<Op<F>>, n: int, out: WitnessId, b: WitnessId, ext: bool)
     requires
         dinv(d, ops, n), n < ops.len(), n < usize::MAX,
         addmul_parts(ops[n]).is_some(), addmul_parts(ops[n]).unwrap().3 == out, addmul_parts(ops[n]).unwrap().2 == b,
     ensures
-        ({ let bw = d.dom().contains(out) && d[out].idx < n;
+        ({ let bw = ext || (d.dom().contains(out) && d[out].idx < n);
            pinv(if bw { ins_uc(d, b, n as usize, OpDef::Other) } else { d }, ops, n, wnone(), true) && (!bw ==> no_definer_before(ops, n, out)) })
 {
     lemma_open(d, ops, n);
-    let bw = d.dom().contains(out) && d[out].idx < n;
+    let bw = ext || (d.dom().contains(out) && d[out].idx < n);
     if bw {
         lemma_ins(d, ops, n, wnone(), false, b, OpDef::<F>::Other);
         let d2 = ins_uc(d, b, n as usize, OpDef::<F>::Other);
